@@ -100,7 +100,8 @@ def call_program(draw, config=None, ncalls=(2, 5), nest=True, valid=False, **cfg
             if RST and draw(st.booleans()):
                 npos = len(P) + draw(st.integers(0, 2))
         else:
-            npos = draw(st.integers(0, len(P) + 2))
+            # wrong counts: one too many is the most telling (a fixed-arity declaration must say so whatever was tried before it)
+            npos = draw(st.sampled_from([len(P) + 1, len(P) + 1] + list(range(0, len(P) + 3))))
         pos = []
         exprs = []
         for j in range(npos):
